@@ -17,6 +17,75 @@ NOTES = ('All checks: bin/check <ID> --tier quick|thorough [--replay file]; '
          'fixes: /verif/KNOWN_FINDINGS.txt. Design: /verif/DESIGN.md.')
 
 CHECKS = {
+    'C03': dict(
+        level='exploration',
+        technique='runtime monitoring: find_all/find/count/getattr compared '
+                  'with a reference search over the raw tree and with '
+                  'occurrence counts of the generating syntax tree, every '
+                  'node as root',
+        text='For every generated document, every occurring name, absent '
+             'names, list queries and full-expression queries, from sampled '
+             'roots across the whole tree, search returned exactly the '
+             'reference set (each once), find/count/attribute access/list '
+             'union agreed.',
+        note='Reference = independent walk over args/_contents; root counts '
+             'are also checked against the generator AST.',
+        design_ref='4/C03'),
+    'C04': dict(
+        level='exploration',
+        technique='runtime monitoring: relations between navigation views '
+                  'evaluated at every node against each other and a raw-tree '
+                  'reference walk',
+        text='At every node of every generated tree the seven relations of '
+             'the statement held (contents/all, children, iteration/indexing, '
+             'descendants = closure, text order, root concatenation, parent '
+             'links and parent walks to the root).',
+        note='Identity of text leaves is the identity of the carried token.',
+        design_ref='4/C04'),
+    'C06': dict(
+        level='fault_enumeration',
+        technique='runtime monitoring: outcome classifier + in-situ progress '
+                  'contracts (tokenizer rounds, read_expr cursor) + reader '
+                  'step budget + watchdog, over exhaustively enumerated short '
+                  'strings, fault-injected documents and nesting towers, both '
+                  'tolerance modes',
+        text='Every enumerated/faulted input in both modes ended in a tree or '
+             'a diagnostic raised by the reader; no internal exception leaked; '
+             'every tokenizer round and reader call advanced its cursor and '
+             'reader calls stayed within 500+2n^2 (towers to depth 40).',
+        note='Termination is restated as bounded progress; the wall-clock '
+             'alarm alone is inconclusive.',
+        design_ref='4/C06'),
+    'C07': dict(
+        level='fault_enumeration',
+        technique='runtime monitoring: strict/tolerant differential, '
+                  'single-closer-deletion and truncation faults located from '
+                  'the syntax tree, closer-insertion alignment (DP)',
+        text='(a) every strict success was reproduced identically by '
+             'tolerant mode; (b) every single lost closer made strict fail '
+             'with EOFError/TypeError and tolerant succeed; (c) every '
+             'tolerant output aligned with its input up to inserted closers.',
+        note='Known findings: blanks stripped from environment names, '
+             '\\begin[x] printed with braces.',
+        design_ref='4/C07'),
+    'C08': dict(
+        level='exploration',
+        technique='runtime monitoring: two-pointer alignment oracle between '
+                  'input and serialised output over arbitrary parseable '
+                  'strings',
+        text='For every parseable input inside the domain the output was the '
+             'input minus whitespace directly before opening braces/brackets.',
+        note='Known findings: env-name-stripped, begin-bracket-name.',
+        design_ref='4/C08'),
+    'C16': dict(
+        level='exploration',
+        technique='runtime monitoring: second run of the parser on its own '
+                  'output (text fixed point and tree-shape equality)',
+        text='For every parseable input inside the domain the serialised '
+             'text re-parsed, re-serialised identically and had the same tree '
+             'shape.',
+        note='Shape = raw tree converted to the generator AST.',
+        design_ref='4/C16'),
     'C01': dict(
         level='exploration',
         technique='runtime monitoring: round-trip and node-slice oracle over '
